@@ -88,7 +88,7 @@ func run(c *vf.Ctx) {
 		"plus long segments (threads,memory){(1,516),(1,1024),(1,1031),(2,1040),(2,2048),(3,1600)} x time{1,2} x keyLen{32,65}; plus threads 255 x memory{1,2039,2040,2041,3059,3060,3061,4096} x time{1,2} x keyLen{32,65}; each point x 1 value class (fixed alphabet / seeded, alternating along the grid) x block function {SSE4 asm, SSE2+portable rounds}; " +
 		"thorough: threads 1..17,32,64,128,254,255, more memory values (up to 1024 KiB), 27 key lengths x 6 shapes plus keyLen{32,65} x 16 shapes at time 1, 27 key lengths x 1 shape at time 2,3, 2 value classes per point; " +
 		"H': every output length 1..1100 x input length{0,1,64,72,127,128,1024}; block function: 3 implementations x block alphabet x {xor,plain} x {distinct,out=in1}; " +
-		"hardening: (E) keyLen{255,256,257,288,320,352,511,512,513,65535,65536,65537,65600,65632} x (threads,memory){(1,8),(2,19)}, time{255,256,257 (+65535,65536,65537 thorough)} x {(1,8,32),(2,21,65)}, threads{31,32,33,63,64,65} x memory{1,8t-1,8t,8t+1,12t+1}, memory 65541 (thorough also 65536, 65553 with 3 lanes), all under both block functions; " +
+		"hardening: (E) keyLen{255,256,257,288,320,352,511,512,513,65535,65536,65537,65600,65632} x (threads,memory){(1,8),(2,19)}, time{255,256,257 (+65535,65536,65537 thorough)} x {(1,8,32),(2,21,65)}, threads{31,32,33,63,64,65} x memory{1,8t-1,8t,8t+1,12t+1}, thorough: memory{65536,65541 (1 lane),65553 (3 lanes)}; all under both block functions; " +
 		"(A) every call gets password/salt as private copies inside sentinel-framed buffers with spare capacity, which must stay intact and are wiped before the comparison; (C) password / salt lengths 2^k+{-29,-28,-27,-1,0,1,127,128,129} for k=7..22 x mode, and H' output lengths 2^k+{-33,-32,-31,-1,0,1,31,32,33,63,64,65} for k=11..22 into a pre-filled destination; " +
 		"(D) every history of 3 calls over 6 parameter sets: model value at every position, earlier results unchanged by later calls; " +
 		"non-trivial = distinct points with threads>=2, or memory not a multiple of 4*threads, or memory<8*threads, or keyLen>64")
@@ -216,7 +216,7 @@ func run(c *vf.Ctx) {
 				grid = append(grid, point{mode, 1, t, m, 32, 8, 16, len(grid) % 3})
 			}
 		}
-		bigM := [][2]uint32{{1, 65541}}
+		var bigM [][2]uint32 // 64 MiB per call and ~4 s in the model: thorough only
 		if c.Thorough {
 			bigM = [][2]uint32{{1, 65536}, {1, 65541}, {3, 65536 + 17}}
 		}
